@@ -371,7 +371,7 @@ class iindex(dict):
                 sum(final_counts.values()) - final_counts.get(common, 0)
             ) / float(values.size)
             # 100 was determined via benchmarks
-            use_where = (len(counts) / uncommon_ratio) < 100
+            use_where = uncommon_ratio == 0 or (len(counts) / uncommon_ratio) < 100
 
         if use_where:
             entries = {}
